@@ -155,7 +155,16 @@ func (r *mwRun) changesStep(s MWStep, where string) error {
 			r.o.Class("changes-version-vector")
 		}
 	}
-	if len(parseVersionList(a.Version)) == 0 || len(parseVersionList(b.Version)) == 0 {
+	// the empty version '[]' (what s3db_version reports before anything was written) is a
+	// version like any other: from='[]' returns every row of B, to='[]' returns nothing
+	if s.Cut == 0 && s.Ref%5 == 0 {
+		a = verSnap{Version: "[]", Rows: Rows{}}
+		r.o.Class("changes-from-the-empty-version")
+	} else if s.Cut == 0 && s.Mask%7 == 0 {
+		b = verSnap{Version: "[]", Rows: Rows{}}
+		r.o.Class("changes-to-the-empty-version")
+	}
+	if (len(parseVersionList(a.Version)) == 0 && a.Version != "[]") || (len(parseVersionList(b.Version)) == 0 && b.Version != "[]") {
 		return nil
 	}
 	where = fmt.Sprintf("%s s3db_changes(from=%s, to=%s)", where, a.Version, b.Version)
